@@ -142,7 +142,7 @@ def cap_cases(ctx, scale=1):
                 hist = [dict(vals(r.random() < 0.5), dev=[[r.random()], [r.random()]], dorot=r.random() < 0.3) for _k in range(r.choice([1, 2]))]
                 cs[-1].update({"form": form, "kw": "explicit", "nrand_np": False, "history": hist, "hist_mode": mode})
     # seeded random: stub and real generators, both branches
-    for _ in range(int(ctx.n(8, 240) * scale)):
+    for _ in range(int(ctx.n(8, 200) * scale)):
         ra, dec = _sphere_point(r)
         n = r.choice([1, 2] if ctx.quick() else [1, 2, 3])
         c = {"kind": "cap", "ra": ra, "dec": dec, "rad": _radius(r), "dorot": r.random() < 0.4,
@@ -202,7 +202,7 @@ def box_cases(ctx, scale=1):
             box(v["ra_range"], v["dec_range"], [r.random()], [r.choice([0.0, 1.0 - 2.0 ** -53])], "box/history/%s/%s" % (mode, form))
             hist = [dict(rg(), dev=[[r.random()], [r.random()]]) for _k in range(r.choice([1, 2]))]
             cs[-1].update({"form": form, "kw": "explicit", "nrand_np": False, "history": hist, "hist_mode": mode})
-    for _ in range(int(ctx.n(8, 130) * scale)):
+    for _ in range(int(ctx.n(8, 110) * scale)):
         a0, a1 = sorted((r.random() * 360, r.random() * 360))
         d0, d1 = sorted((r.uniform(-90, 90), r.uniform(-90, 90)))
         n = r.choice([1, 2])
@@ -954,7 +954,7 @@ class GeneratorEntry(ParEntry):
                 c = one(9, "irregular", "random", fam="long-request")
                 c["long"], c["nodes"], c["long_seed"] = nlong, [], r.randrange(2 ** 31)
                 cs.append(c)
-        for _ in range(ctx.n(10, 600)):
+        for _ in range(ctx.n(10, 480)):
             n = r.choice([3, 4, 6, 10, 25, r.randrange(3, ctx.n(25, 120))])
             cs.append(one(n, r.choice(["uniform", "integers", "irregular"]), r.choice(["flat", "wide", "small-integers", "random"]),
                           mode=r.choice(["table", "table", "func_x", "func_range"]), nus=r.choice([2, 6, 12])))
